@@ -67,7 +67,14 @@ def _pin_adversarial(self, c):
     space = context_statespace()
     a = self.var
     # beyond 2**55 the spacing of doubles near a/c exceeds 2/c, so (k*c - 1)/c rounds to exactly k
-    cands = [z3.And(a >= 2 ** 55, a % c == c - 1), z3.And(a <= -(2 ** 55), (-a) % c == c - 1), a >= 2 ** 55, a <= -(2 ** 55)]
+    # (when the path's own constraints exclude remainder c - 1 - e.g. the dividend is a multiple of 10 - the nearest remainders
+    # below c are tried, largest dividends first: the closer the remainder and the larger the quotient, the likelier the rounding)
+    cands = [z3.And(a >= 2 ** 55, a % c == c - 1), z3.And(a <= -(2 ** 55), (-a) % c == c - 1)]
+    for j in (2, 4, 6, 8):
+        for lo in (2 ** 61, 2 ** 59, 2 ** 57, 2 ** 55):
+            cands.append(z3.And(a >= lo, a % c >= c - 2 ** j))
+            cands.append(z3.And(a <= -lo, (-a) % c >= c - 2 ** j))
+    cands += [a >= 2 ** 55, a <= -(2 ** 55)]
     for cond in cands:
         space.solver.push()
         try:
